@@ -23,6 +23,14 @@ class Ctx:
         self.clauses = {}
         self.types = []
         self._impl_wrapped = set()
+        import os
+        self.canary = os.environ.get("VERIF_CANARY") == "1"
+
+    def add_canary(self, fw, unit, pos):
+        """vacuity guard: with VERIF_CANARY=1 every unit that has a precondition gets `assert(false)` at its
+        entry; the runner requires that assertion to FAIL (a passing one means a contradictory `requires`)"""
+        ed = fw.insert(pos, "\nproof { assert(false); } // canary\n", rule="W10-canary", prio=7)
+        self.clause(unit, "canary", "assert(false)", set(), ed)
 
     def clause(self, unit, kind, text, tags, ed, name=None):
         n = 1 + sum(1 for c in self.clauses.values() if c["unit"] == unit and c["kind"] == kind)
@@ -148,6 +156,8 @@ def fn_into_verus(ctx, fw, qual, mode="V", ret=None, requires=(), ensures=(), de
         ctx.clause(unit, "dec", decreases, {"C12"}, ed)
     if no_unwind:
         fw.insert(pos, "\n    no_unwind\n", rule="W10")
+    if ctx.canary and requires and mode == "V":
+        ctx.add_canary(fw, unit, fn["block_span"][0] + 1)
     ctx.units[unit] = {"unit": unit, "file": fw.rel, "fn": qual, "mode": mode, "tags": sorted(utags),
                        "span": fn["span"], "line": fw.line_of(fn["sig_span"][0]),
                        "end_line": fw.line_of(fn["span"][1])}
@@ -526,6 +536,8 @@ def outline(ctx, fw, fnnode, first, last, name, params, args, outs=(), types=(),
     if decreases:
         fw.insert(s, "    decreases %s,\n" % decreases, rule="W10")
     fw.insert(s, "{\n", rule="W5")
+    if ctx.canary and requires and mode == "V":
+        ctx.add_canary(fw, unit, s)
     ctx.units[unit] = {"unit": unit, "file": fw.rel, "fn": ("%s::%s" % (im["self_ty"], name)) if method else name, "mode": mode, "tags": sorted(utags), "span": [s, e],
                        "line": fw.line_of(s), "end_line": fw.line_of(e), "segment_of": fw.fn_qualname(fnnode)}
     return unit
